@@ -1396,8 +1396,13 @@ def gen_case(rng, thorough=False):
             pf = []
             cur = ns
             if rng.random() < 0.45:
-                for _d in range(rng.choice([1, 1, 2])):
+                depth = rng.choice([1, 1, 2, 3, 3])
+                for _d in range(depth):
                     f = gen_filter(rng, cur)
+                    if depth >= 2 and cur >= 3 and sum(f[1:]) >= 1:
+                        # every upper level drops an early event, so that
+                        # the indices shift at each level of the hierarchy
+                        f[0] = False
                     pf.append(f)
                     cur = sum(f)
             filt = gen_filter(rng, cur)
